@@ -346,6 +346,9 @@ def guided_search(formula, side, rnd, timeout_s, attempts=12, keep=6):
                 out[str(v)] = Fraction(val.as_long()) if z3.is_int_value(val) else Fraction(val.numerator_as_long(), val.denominator_as_long())
             for i in free:
                 out[str(vs[i])] = sym.model_value(m, vs[i])
+            # everything else still free in the instance (Bool flags in particular) comes from the model
+            for k, v in model_to_values(m, sym.free_vars(g)).items():
+                out.setdefault(k, v)
             return out, time.time() - t0
     return None, time.time() - t0
 
